@@ -1558,6 +1558,7 @@ func init() {
 			{Name: "ORDER-KEY", What: "LessByCoordinate is (reference id in the header, position) with unplaced last, over all orderings; LessByName is Name <", Floor: 2, Run: ruleOrderKey},
 			{Name: "ORDER-KEPT", What: "NewMerger, for coordinate order, compares the merged-header ids of consecutive links of each source and refuses the inputs when a source's reference order is not kept: otherwise inputs sorted by their own order merge into an unsorted stream (added for a defect of the unchanged tree)", Floor: 1, Run: ruleOrderKept},
 			{Name: "PATH-SHARED", What: "a BAM record buffer that aliases memory the Reader reuses is marked shared: the Merger reads a source's next record before it returns the current one (shared with C05/C06; under C18 since ninth-round seed C18-i)", Floor: 1, Run: ruleBufShared},
+			{Name: "MERGE-ERR-ORIGIN", What: "every error a method of bam.Merger returns or records is nil, io.EOF, an input's Read error or one of the two recorded fields read back: the Merger makes no errors of its own after construction (added after thirteenth-round seed C18-m)", Floor: 2, Run: ruleMergeErrOrigin},
 			{Name: "FRESH-LINKS", What: "MergeHeaders gives each source a link slice of its own whose entries are the merged header's references of the same name – not a prefix of the merged list (shared with C07; under C18 since ninth-round seed C18-j)", Floor: 3, Run: ruleFreshLinks},
 			{Name: "PTR-EQ", What: "package sam never compares two url.URL by pointer: MergeHeaders of identical headers with UR must find the references equal (shared with C07)", Floor: 3, Run: rulePtrEq},
 			{Name: "PATH-BAMLEN", What: "bam.newBuffer returns the errors of both reads of a record, and a source that ends inside the length prefix is io.ErrUnexpectedEOF, not a clean end: the Merger takes io.EOF from a source as \"exhausted\" (shared with C10; under C18 since seventh-round seed C18-h)", Floor: 1, Run: ruleBamLen},
